@@ -6,7 +6,7 @@ SIGS = {'status-changed-spontaneously','converged-service-rewritten','restart-ch
 
 def run(ctx):
     ctx.coq_build(["Properties/C03.v"] + cc.COQ_FILES)
-    ctx.coq_theorems("Properties/C03.v", cc.CLOSURE + ["Proofs/AllocMonoP.v", "Proofs/CtrlStarveP.v", "Proofs/CtrlRestartP.v", "Proofs/CtrlStableP.v"])
+    ctx.coq_theorems("Properties/C03.v", cc.CLOSURE + ["Proofs/AllocMonoP.v", "Proofs/CtrlStarveP.v", "Proofs/CtrlRestartP.v", "Proofs/CtrlStableP.v", "Proofs/CtrlPostP.v", "Proofs/CtrlTotalP.v", "Proofs/CtrlProgressP.v", "Proofs/CtrlExactP.v"])
     cases, st, mism, search = cc.run_ctrl(ctx, SIGS)
     nev = sum(len(c["in"]) for c in cases)
     distinct = len({json.dumps([{k: v for k, v in e.items() if k != "obs"} for e in c["in"]], sort_keys=True) for c in cases if len(c["in"]) >= 5})
